@@ -191,9 +191,14 @@ func (vc *VC) modelCall(fr *Frame, st *State, callee *ssa.Function, args []strin
 		}
 		vc.condWait(fr, st, vc.eng.lockClassOf(argVal(argVals, 0)), pos)
 		return nil, true
-	case "(*sync.Cond).Broadcast", "(*sync.Cond).Signal":
+	case "(*sync.Cond).Broadcast":
 		vc.svDeclare("G_dirty", "Bool")
 		st.vars["G_dirty"] = "false"
+		return nil, true
+	case "(*sync.Cond).Signal":
+		// Signal wakes one waiter only: with several waiters (of possibly different predicates) on the
+		// condition variable the others keep sleeping, so a pending wake-up is not discharged by it
+		vc.assume("sync.Cond.Signal is treated as not discharging a pending wake-up (several handlers may wait on the same condition variable)")
 		return nil, true
 	case "sync.NewCond":
 		r := vc.alloc(st, "cond")
